@@ -16,26 +16,48 @@ trap 'rm -rf "$scratch"' EXIT
 mkdir -p "$scratch/bin" "$scratch/cov" "$scratch/out"
 # the checks read known findings etc. from their root and write evidence there: give them a copy
 rsync -a --exclude .build --exclude .git --exclude seeded --exclude out "$ROOT/" "$scratch/out/"
+# the cover tool reads source files from disk and knows nothing of the overlay: materialise /repo + overlay in scratch
+rsync -a --exclude .git /repo/ "$scratch/repo/"
+rsync -a --exclude go.sum "$ROOT/engine/" "$scratch/engine/"
+cp /repo/go.sum "$scratch/engine/go.sum"
+sed -i "s#=> /repo#=> $scratch/repo#" "$scratch/engine/go.mod"
 for id in $ids; do
   n=$(echo "$id" | tr 'A-Z' 'a-z')
-  ovname=cov.json
   if [ -d "engine/checks/$n/bridge" ]; then
     ov=$(VERIF_EXTRA_BRIDGE="$ROOT/engine/checks/$n/bridge" python3 engine/cmd/mkoverlay.py "cov-$n.json") || exit 3
   else
-    ov=$(python3 engine/cmd/mkoverlay.py "$ovname") || exit 3
+    ov=$(python3 engine/cmd/mkoverlay.py "cov.json") || exit 3
   fi
-  (cd engine && $GO test -c -cover -covermode=set -coverpkg=github.com/Shopify/sarama,github.com/Shopify/sarama/mocks -tags verif -overlay "$ov" -vet=off -o "$scratch/bin/$n.test.real" ./checks/$n) || { echo "build failed for $id"; continue; }
-  # children are started as os.Args[0] with their own flags: a wrapper under the binary's name adds the coverage directory
-  cat > "$scratch/bin/$n.test" <<EOF
-#!/bin/bash
-exec -a "\$0" "\$0.real" "\$@" -test.gocoverdir="$scratch/cov"
-EOF
-  chmod +x "$scratch/bin/$n.test"
-  VERIF_ROOT="$scratch/out" VERIF_TIER=quick "$scratch/bin/$n.test" -test.run '^TestCheck$' -test.timeout 0 > "$scratch/out/$n.log" 2>&1
+  # remove what the previous check's bridge added, then lay this check's overlay over the copy
+  (cd "$scratch/repo" && ls | grep '^verif_c[0-9][0-9]' | xargs -r rm -f; ls mocks 2>/dev/null | grep '^verif_c[0-9][0-9]' | sed 's#^#mocks/#' | xargs -r rm -f)
+  python3 - "$ov" "$scratch/repo" <<'PY'
+import json,sys,shutil,os
+d=json.load(open(sys.argv[1]))['Replace']
+for dst,src in d.items():
+    assert dst.startswith('/repo/'), dst
+    t=os.path.join(sys.argv[2],dst[len('/repo/'):])
+    os.makedirs(os.path.dirname(t),exist_ok=True)
+    shutil.copyfile(src,t)
+PY
+  (cd "$scratch/engine" && $GO test -c -cover -covermode=set -coverpkg=github.com/Shopify/sarama,github.com/Shopify/sarama/mocks -tags verif -vet=off -o "$scratch/bin/$n.test.real" ./checks/$n) || { echo "build failed for $id"; continue; }
+  # worker processes are killed, never asked to exit: every process of a -cover build dumps its counters every two
+  # seconds into $VERIF_COVERDIR/<pid>/ (engine/ev/cover.go)
+  mv "$scratch/bin/$n.test.real" "$scratch/bin/$n.test"
+  VERIF_COVERDIR="$scratch/cov" VERIF_ROOT="$scratch/out" VERIF_TIER=quick "$scratch/bin/$n.test" -test.run '^TestCheck$' -test.timeout 0 > "$scratch/out/$n.log" 2>&1
   echo "$id rc=$? $(grep -a '^RESULT' "$scratch/out/$n.log" | cut -c1-80)"
 done
-$GO tool covdata textfmt -i="$scratch/cov" -o "$scratch/profile.txt" 2>"$scratch/covdata.err" || { cat "$scratch/covdata.err" | head; exit 3; }
+# hundreds of per-process directories: merge them in chunks first
+ls -d "$scratch"/cov/* | grep -v "\.tmp$" > "$scratch/dirs.txt"
+mkdir -p "$scratch/merged"
+split -l 100 "$scratch/dirs.txt" "$scratch/chunk."
+i=0
+for c in "$scratch"/chunk.*; do
+  i=$((i+1)); mkdir -p "$scratch/merged/$i"
+  $GO tool covdata merge -i="$(paste -sd, "$c")" -o "$scratch/merged/$i" 2>>"$scratch/covdata.err" || { head "$scratch/covdata.err"; exit 3; }
+done
+dirs=$(ls -d "$scratch"/merged/* | paste -sd,)
+$GO tool covdata textfmt -i="$dirs" -o "$scratch/profile.txt" 2>>"$scratch/covdata.err" || { cat "$scratch/covdata.err" | head; exit 3; }
 mkdir -p .build
 cp "$scratch/profile.txt" .build/coverage-profile.txt
-(cd /repo && $GO tool cover -func="$scratch/profile.txt") > .build/coverage-func.txt 2>"$scratch/cover.err" || head "$scratch/cover.err"
+(cd "$scratch/engine" && $GO tool cover -func="$scratch/profile.txt") > .build/coverage-func.txt 2>"$scratch/cover.err" || head "$scratch/cover.err"
 echo "per-function coverage: .build/coverage-func.txt ($(wc -l < .build/coverage-func.txt) functions)"
